@@ -6,6 +6,7 @@ package syntax
 
 import (
 	"bytes"
+	"unicode/utf16"
 	"unicode/utf8"
 )
 
@@ -124,6 +125,11 @@ func unquoteBytes(value []byte) []byte {
 				value = value[2:]
 			case 'u':
 				// two-byte hex-encoded unicode.
+				if r, ok := surrogatePair(value); ok {
+					buf = utf8.AppendRune(buf, r)
+					value = value[10:]
+					continue
+				}
 				if len(value) < 4 {
 					buf = append(buf, runeError()...)
 					value = value[len(value):]
@@ -166,6 +172,21 @@ func unquoteBytes(value []byte) []byte {
 		}
 	}
 	return buf
+}
+
+// surrogatePair decodes XXXX\uYYYY, the remainder of a UTF-16 surrogate pair
+// of \u escapes, which is how JSON writes characters beyond the basic
+// multilingual plane.
+func surrogatePair(value []byte) (rune, bool) {
+	if len(value) < 10 || value[4] != '\\' || value[5] != 'u' {
+		return utf8.RuneError, false
+	}
+	r := utf16.DecodeRune(
+		rune(parseHexByte(value[2], value[3]))+
+			(rune(parseHexByte(value[0], value[1]))<<8),
+		rune(parseHexByte(value[8], value[9]))+
+			(rune(parseHexByte(value[6], value[7]))<<8))
+	return r, r != utf8.RuneError
 }
 
 func (store *stringIntern) unquote(value []byte) string {
